@@ -4,7 +4,6 @@
 // relating the real methods to those views are ASSUMED here (those within reach are proved in units
 // `deposits`, `min_ada`, `fees` with the same contract text).
 // ---------------------------------------------------------------------------------------------------------
-macro_rules! opaque_types { ($($n:ident),* $(,)?) => { verus!{ $( #[verifier::external_body] pub struct $n { _p: core::marker::PhantomData<u8> } )* } } }
 opaque_types!(Address, DataOption, ScriptRef, CborContainerType, TransactionInput, TransactionInputs, Certificates, Withdrawals, Update,
     AuxiliaryDataHash, AuxiliaryData, Mint, ScriptDataHash, Ed25519KeyHashes, NetworkId, VotingProcedures, VotingProposals,
     PlutusList, TxInputsBuilder, CertificatesBuilder, WithdrawalsBuilder, MintBuilder, VotingBuilder, VotingProposalBuilder,
